@@ -188,7 +188,25 @@ def stencilH (j : Json) : Except String Json := do
   let flat2 (l : List (Option (Option Float))) : Json := jList (fun o => jOptF o.join) l
   pure (Json.mkObj [("whole", jList jOptF whole), ("split", flat2 split), ("exchanged", flat2 exch)])
 
+/-- {"axes":..,"ghost":bool,"members":[number of components per member]}: a collection whose component `c` (numbered
+through the whole collection) holds `100000*c + k` in padded cell `k` (row-major) -> per node, per member, per
+component {"shape","data"} of `Mesh.subcollection`; null = a cell the extraction leaves undefined -/
+def subcollH (j : Json) : Except String Json := do
+  let m ← getMesh j
+  let ghost ← fldB j "ghost"
+  let ncs ← getL getN (← fld j "members")
+  let shp := m.arrShape true
+  let mk (c : Nat) : Arr Int := { shape := shp, get := fun p => ((100000 * c + ravel shp p : Nat) : Int) }
+  let members : List (List (Arr Int)) :=
+    (ncs.foldl (fun (acc : List (List (Arr Int)) × Nat) nc =>
+      (acc.1 ++ [(List.range nc).map (fun c => mk (acc.2 + c))], acc.2 + nc)) ([], 0)).1
+  pure (jList (fun id =>
+    jList (fun comps => jList (fun (s : Arr (Option Int)) =>
+      Json.mkObj [("shape", jNs s.shape), ("data", jList jOptI (flatOfArr s))]) comps)
+      (m.subcollection ghost members id)) (List.range m.len))
+
 def handlers : List (String × Handler) := [
+  ("c17.subcoll", subcollH),
   ("c17.subdivide", subdivideH), ("c17.outcome", outcomeH), ("c17.mesh", meshH), ("c17.bounds", boundsH),
   ("c17.extract", extractH), ("c17.combine", combineH), ("c17.mpibc", mpibcH),
   ("c17.exchange", exchangeH), ("c17.stencil", stencilH)]
